@@ -966,3 +966,34 @@ mod tests {
         );
     }
 }
+
+/// Verification hooks (see `crate::verif_hooks`).
+#[cfg(scylla_verif)]
+impl ClusterState {
+    pub(crate) fn verif_add_tablet_from_payload(
+        &mut self,
+        keyspace: &str,
+        table: &str,
+        payload: &HashMap<String, bytes::Bytes>,
+    ) -> Result<bool, String> {
+        match RawTablet::from_custom_payload(payload) {
+            None => Ok(false),
+            Some(Err(e)) => Err(e.to_string()),
+            Some(Ok(raw)) => {
+                let spec = TableSpec::owned(keyspace.to_owned(), table.to_owned());
+                self.update_tablets(vec![(spec, raw)]);
+                Ok(true)
+            }
+        }
+    }
+
+    pub(crate) fn verif_tablet_ranges(
+        &self,
+        table: &TableSpec<'_>,
+    ) -> Option<Vec<crate::verif_hooks::TabletDump>> {
+        self.locator
+            .tablets
+            .tablets_for_table(table)
+            .map(|t| t.verif_dump())
+    }
+}
